@@ -15,12 +15,17 @@ CLS = "Polyhedron"
 HEADER_RE = r"Polyhedron_(inlines|templates|chdims_templates)\.hh"
 ANCHOR = ("select_H79_constraints", 3)
 MIN_REQ = 15
+DISCARDS = ("clear_generators_up_to_date", "clear_constraints_up_to_date")
 # preconditions a worker relies on without asserting them (stated here, discharged at its call sites)
 IMPLICIT_REQ = {
     # collapsing an object of positive dimension to the zero-dimensional universe asserts that it is
     # not empty: the witness is a complete generator description (the zero-dimensional branches are
     # pruned by the explorer, so only collapsing call sites are judged)
     ("set_zero_dim_univ", 0): [("this", "NE", True)],
+    # withdrawing a description discards whatever only it knows (its pending rows included): the other
+    # description must be complete at that point, or the value of the object changes
+    ("clear_generators_up_to_date", 0): [("this", "CU", True), ("this", "PG", False)],
+    ("clear_constraints_up_to_date", 0): [("this", "GU", True), ("this", "PC", False)],
 }
 
 # predicate -> (atom, value when the predicate is true)
@@ -328,6 +333,12 @@ def discharge(ctx, rid, exceptions=None, judged_atoms=("PG", "PC", "CU", "GU", "
 
         def apply(env, o, eff):
             env = dict(env)
+            # what the invariants imply now stays true after the effect unless the effect itself changes it
+            # (integrating pending rows clears the pending flag, not the two up-to-date flags it implied)
+            raw = {k[1]: v for k, v in env.items() if k[0] == o}
+            for a in ("CU", "GU"):
+                if a not in eff and a not in raw and entails(raw, a, True):
+                    env[(o, a)] = True
             for a, v in eff.items():
                 env[(o, a)] = v
             return env
@@ -352,8 +363,13 @@ def discharge(ctx, rid, exceptions=None, judged_atoms=("PG", "PC", "CU", "GU", "
                 if x["i"] in sites:
                     c, obl = sites[x["i"]]
                     for tgt, a, v in obl:
-                        if not entails(state_of(env, tgt), a, v):
-                            failures.setdefault(x["i"], {}).setdefault((tgt, a, v), dict(state_of(env, tgt)))
+                        st_ = state_of(env, tgt)
+                        if f.call_name(c) in DISCARDS and env.get((tgt, "ME?")):
+                            # a possibly empty object (unexamined `false' answer) loses nothing by the discard:
+                            # judge the case where it is not empty
+                            st_ = {k[1]: v2 for k, v2 in env.items() if k[0] == tgt and k[1] != "ME?"}
+                        if not entails(st_, a, v):
+                            failures.setdefault(x["i"], {}).setdefault((tgt, a, v), dict(st_))
                 if x["k"] == "mcall":
                     o = obj_key(f, f.call_obj(x))
                     nm = f.call_name(x)
